@@ -206,7 +206,19 @@ Inductive case :=
      outcome 0 = silence, 1 + the 12 reply octets as a big-endian number otherwise.  The library
      decodes a header-only packet to a message without sections whatever the counts say (the driver
      checks that on every packet); that decode is [sweep_body]. *)
-| CaseSweep (tr : transport) (id qd an ns ar : N) (runs : list (N * N)).
+| CaseSweep (tr : transport) (id qd an ns ar : N) (runs : list (N * N))
+  (* one query answered by the REAL cache sitting behind the edns layer (driver `cache`): a Chain
+     [edns; recorder; cache] entered wire-born ([strict]) or decoded.  [hops] = the stored headers
+     the reply was produced from: the exact entry's ([kind] 0), or the alias entry's followed by
+     every hop's when composeWireChase served ([kind] 1); [] when an alias was completed on the Msg
+     path ([kind] 2: the product is observed, its header not predicted); [kind] 3 = the RFC 8020 cut composer
+     served, 4 = the RFC 9520 cached-failure composer ([hops] = [] for both).  [wtry] = the body the
+     cache handed to WriteWire / CommitWire, decoded, with WireInfo.AuthenticatedData, HasDNSSEC,
+     the EDE and the body's length; [dn] = the message it handed to WriteMsg (after a declined byte
+     path, or instead of it); then the octets the transport sent, as in the other cases *)
+| CaseHit (tr : transport) (c : cfg) (nt : ntab) (q : msg) (strict : bool) (kind : N) (hops : list hdr)
+          (wtry : option (msg * bool * bool * option eopt * N)) (dn : option msg)
+          (obs : option msg) (rlen oulen oclen : N).
 
 (* the model's two length computations agree with the library's on the observed reply, and the
    lengths the records carry agree with the name table *)
@@ -251,6 +263,41 @@ Fixpoint sweep_ok (f : N -> N -> bool) (runs : list (N * N)) (start : N) : bool 
   end.
 Definition sweep_cfg : cfg := mk_cfg None 0 None.
 
+(* ---- the cache behind the edns layer ---- *)
+(* the edns writer on what the cache handed it *)
+Definition hit_reply (nt : ntab) (tr : transport) (c : cfg) (q : msg) (strict : bool)
+           (wtry : option (msg * bool * bool * option eopt * N)) (dn : option msg) : option msg :=
+  let w := mk_wstate tr strict q (set_edns0 c q) in
+  match wtry with
+  | Some (d, iad, hasd, ede, blen) =>
+      match write_wire tr c w d iad hasd ede blen with
+      | Some r => Some (norm r)
+      | None => option_map (shape_reply_c nt tr c w) dn
+      end
+  | None => option_map (shape_reply_c nt tr c w) dn
+  end.
+(* the cache's producers: the header of the body / message and the WireInfo verdict are the
+   model's function of the stored headers and the request's *)
+Definition hit_producer (kind : N) (hops : list hdr) : option producer :=
+  if (kind =? 0) || (kind =? 1) then Some (PEntries hops)
+  else if kind =? 3 then Some PCut else if kind =? 4 then Some PFailure else None.
+Definition hit_producer_ok (q : msg) (kind : N) (hops : list hdr)
+           (wtry : option (msg * bool * bool * option eopt * N)) (dn : option msg) : bool :=
+  match hit_producer kind hops with
+  | None => true
+  | Some p =>
+      match produce p (m_hdr q) with
+      | None => false
+      | Some (h, iad) =>
+          match wtry with
+          | Some (d, iad', _, _, _) => hdr_eqb (m_hdr d) h && Bool.eqb iad iad'
+          | None => true
+          end
+          && (if kind =? 0 then match dn with Some m => hdr_eqb (m_hdr m) h | None => true end else true)
+          && (if kind =? 0 then true else negb (is_none wtry))
+      end
+  end.
+
 Definition theader_eqb (a b : T_Header) : bool :=
   (T_Header_ID a =? T_Header_ID b) && (T_Header_Flags a =? T_Header_Flags b) && (T_Header_QDCount a =? T_Header_QDCount b)
   && (T_Header_ANCount a =? T_Header_ANCount b) && (T_Header_NSCount a =? T_Header_NSCount b)
@@ -267,6 +314,7 @@ Definition case_obs (x : case) : option msg :=
   | CaseWire _ _ _ _ _ _ _ _ _ _ _ obs _ _ _ => obs
   | CaseMsg _ _ _ _ _ _ obs _ _ _ => obs
   | CaseChain _ _ _ _ _ _ _ obs _ _ _ => obs
+  | CaseHit _ _ _ _ _ _ _ _ _ obs _ _ _ => obs
   | _ => None
   end.
 Definition bytes_eqb (a b : list N) : bool := list_eqb N.eqb a b.
@@ -291,6 +339,12 @@ Definition wire_octets_ok (tail : list N) (x : case) : bool :=
       | Some _ => w_noedns w || bytes_eqb (wire_opt_octets c w ede) tail
       | None => true
       end
+  | CaseHit tr c _ q strict _ _ (Some (d, iad, hasd, ede, blen)) _ (Some _) _ _ _ =>
+      let w := mk_wstate tr strict q (set_edns0 c q) in
+      match write_wire tr c w d iad hasd ede blen with
+      | Some _ => w_noedns w || bytes_eqb (wire_opt_octets c w ede) tail
+      | None => true
+      end
   | _ => true
   end.
 
@@ -307,6 +361,11 @@ Fixpoint check_case (x : case) : bool :=
       omsg_eqb (option_map (transport_write tr) (edns_serve_c nt tr c q strict dn)) obs
       && lens_ok nt obs oulen oclen && omsg_wf nt dn
   | CaseRelax _ y => check_case y
+  | CaseHit tr c nt q strict kind hops wtry dn obs rlen oulen oclen =>
+      (* the generator sends opcode-0, version-0, single-question queries: the edns layer hands them on *)
+      is_none (edns_serve_gen (fun _ d => d) tr c q strict None)
+      && omsg_eqb (hit_reply nt tr c q strict wtry dn) obs && hit_producer_ok q kind hops wtry dn
+      && lens_ok nt obs oulen oclen && omsg_wf nt dn
   | CaseSweep tr id qd an ns ar runs =>
       sweep_ok (fun fl o =>
                   sweep_outcome (serve_raw tr sweep_cfg (mk_T_Header id fl qd an ns ar) (Some (sweep_body id fl)) false None 0) =? o)
@@ -328,6 +387,7 @@ Fixpoint spec_top (rx : N) (x : case) : bool :=
   | CaseWire tr c _ h body _ _ _ _ _ _ obs rlen _ _ => spec_raw rx tr c h body obs rlen
   | CaseMsg tr c _ q _ _ obs rlen _ _ => spec_msg rx tr c q obs rlen
   | CaseChain tr c _ q _ _ _ obs rlen _ _ => negb (length (m_q q) =? 1)%nat || spec_msg rx tr c q obs rlen
+  | CaseHit tr c _ q _ _ _ _ _ obs rlen _ _ => negb (length (m_q q) =? 1)%nat || spec_msg rx tr c q obs rlen
   | CaseRelax _ _ => true
     (* fewer than 12 octets: no header to answer to — the statement is silent, so is the server
        (judged on the packet's length alone: the oracle does not go through the translated parser) *)
